@@ -87,7 +87,10 @@ class LtsParser(HParser):
                     self.err("attribute without a statement")
             n0 = len(stmts)
             if self.at("let"):
-                stmts.append(self.let_())
+                l_ = self.let_()
+                e_ = l_.args[1] if len(l_.args) > 1 else None
+                if not (l_.args[0] == "_" and e_ is not None and e_.op == "ref" and e_.args and e_.args[0] is not None and e_.args[0].op == "path"):
+                    stmts.append(l_)   # (`let _ = &x;` does nothing)
             elif self.at("const") and self.peek(1).kind == "ident" and self.peek(2).text == ":":
                 self.eat()
                 name = self.eat().text
